@@ -1,5 +1,7 @@
+pub mod amo;
 pub mod asyncp;
 pub mod common;
+pub mod containers;
 pub mod more;
 pub mod registry;
 pub mod solve;
